@@ -723,6 +723,10 @@ Definition out_ok (full : option (list (option okm))) : option smsg :=
   | None => None
   end.
 
+Lemma match_nonempty {A B} (l : list A) (a b : B) :
+  l <> [] -> match l with [] => a | _ :: _ => b end = b.
+Proof. destruct l; congruence. Qed.
+
 Ltac split5 := split; [|split; [|split; [|split]]].
 
 (** handleSendOKMsg is [w_put] on the slot vector of its event id and touches
@@ -761,8 +765,7 @@ Proof.
   assert (Hok1 : os_ok n o1).
   { split; [exact Hn|]. cbn [os_s o1]. now apply slots_ok_set. }
   unfold os_ready. cbn [os_s o1]. rewrite assoc_m_set_same. cbn [vlist].
-  rewrite g_ok_ready_absent_spec, g_ok_not_ready_spec.
-  destruct l' as [|y0 l0'] eqn:El'; [congruence|]. rewrite <- El' in *.
+  rewrite g_ok_ready_absent_spec, g_ok_not_ready_spec, (match_nonempty l') by exact Hne'.
   destruct (existsb isNone l') eqn:Ex; cbn [negb snd fst out_ok].
   - exists o1. split5; try exact Hok1.
     + reflexivity.
@@ -772,7 +775,7 @@ Proof.
   - destruct (full_vector l' Ex) as [xs Exs].
     destruct (ok_merge_full xs) as [r Er]; [intro E; subst xs; rewrite Exs in Hne'; now apply Hne'|].
     unfold os_msg. cbn [os_s o1]. rewrite assoc_m_set_same. cbn [vlist].
-    rewrite g_ok_msg_absent_spec. rewrite El'. rewrite <- El'.
+    rewrite g_ok_msg_absent_spec, (match_nonempty l') by exact Hne'.
     fold (ok_merge l'). rewrite Exs, Er. cbn [option_map].
     exists (os_clear o1 id). split5.
     + reflexivity.
@@ -781,4 +784,593 @@ Proof.
       apply assoc_m_set_other. congruence.
     + cbn [os_clear os_s]. apply assoc_m_del_same.
     + intros l'' H. inversion H; subst. now exists r.
+Qed.
+
+(** ** COUNT *)
+
+Definition cs_ok (n : nat) (c : cstate) : Prop := cs_size c = n /\ slots_ok c_sub n (cs_counts c).
+
+Definition cnt_merge (l : list (option cntm)) : option cntm :=
+  match all_some l with
+  | None => None
+  | Some [] => None
+  | Some (m :: r) => Some (first_max m r)
+  end.
+
+Lemma all_some_map {A} (xs : list A) : all_some (List.map Some xs) = Some xs.
+Proof. induction xs as [|x xs IH]; simpl; [reflexivity | now rewrite IH]. Qed.
+
+Lemma cnt_merge_full xs : xs <> [] -> exists r, cnt_merge (List.map Some xs) = Some r.
+Proof.
+  intro H. unfold cnt_merge. rewrite all_some_map. destruct xs; [congruence | eexists; reflexivity].
+Qed.
+
+Lemma cs_set_sub_ok n c sub : cs_ok n c -> cs_ok n (cs_set_sub c sub).
+Proof.
+  intros [Hn H]. split; [exact Hn|]. cbn [cs_set_sub cs_counts].
+  apply slots_ok_set; [assumption | now rewrite repeat_length |].
+  intros a Ha. exfalso. eapply In_repeat_None; eauto.
+Qed.
+
+Definition out_cnt (full : option (list (option cntm))) : option smsg :=
+  match full with
+  | Some l' => option_map SCount (cnt_merge l')
+  | None => None
+  end.
+
+(** handleSendCountMsg is [w_put] on the slot vector of its subscription id *)
+Lemma send_count_spec n s i m :
+  cs_ok n (st_cs s) -> (i < n)%nat ->
+  let v := assoc (c_sub m) (cs_counts (st_cs s)) in
+  exists c',
+    send_count s i m = (with_cs s c', out_cnt (snd (w_put v i m))) /\
+    cs_ok n c' /\
+    (forall k, k <> c_sub m -> assoc k (cs_counts c') = assoc k (cs_counts (st_cs s))) /\
+    assoc (c_sub m) (cs_counts c') = fst (w_put v i m) /\
+    (forall l', snd (w_put v i m) = Some l' -> exists r, cnt_merge l' = Some r).
+Proof.
+  intros [Hn Hok] Hi v. set (o := st_cs s) in *. set (id := c_sub m) in *.
+  unfold send_count, cs_set_msg. fold o. fold id. fold v.
+  destruct v as [l|] eqn:Ev.
+  2:{ cbn [vlist]. rewrite g_cnt_set_absent_spec. unfold cs_ready. fold v. rewrite Ev. cbn [vlist].
+      rewrite g_cnt_ready_absent_spec, g_count_not_ready_spec. cbn [negb].
+      exists o. split5; auto; try (split; assumption). intros l' H; discriminate. }
+  cbn [vlist]. rewrite g_cnt_set_absent_spec.
+  destruct l as [|x0 l0] eqn:El.
+  { unfold cs_ready. fold v. rewrite Ev. cbn [vlist]. rewrite g_cnt_ready_absent_spec, g_count_not_ready_spec.
+    cbn [negb]. exists o. split5; auto; try (split; assumption). intros l' H; discriminate. }
+  rewrite <- El in *. destruct (Hok id l Ev) as [Hlen Hkey].
+  destruct (upd_nth_some i (Some m) l) as [l' Eu]; [lia|].
+  assert (W : w_put (Some l) i m = if existsb isNone l' then (Some l', None) else (None, Some l')).
+  { unfold w_put. rewrite Eu. rewrite El in *. reflexivity. }
+  rewrite W, Eu. clear W.
+  set (o1 := mkCS (cs_size o) (m_set id l' (cs_counts o))).
+  assert (Hl' : length l' = n) by (rewrite (upd_nth_length _ _ _ _ Eu); exact Hlen).
+  assert (Hk' : forall a, In (Some a) l' -> c_sub a = id).
+  { intros a Ha. destruct (upd_nth_In _ _ _ _ _ Eu Ha) as [E|Hin]; [now inversion E | now apply Hkey]. }
+  assert (Hne' : l' <> []).
+  { intro E. rewrite E in Hl'. simpl in Hl'. lia. }
+  assert (Hok1 : cs_ok n o1).
+  { split; [exact Hn|]. cbn [cs_counts o1]. now apply slots_ok_set. }
+  unfold cs_ready. cbn [cs_counts o1]. rewrite assoc_m_set_same. cbn [vlist].
+  rewrite g_cnt_ready_absent_spec, g_count_not_ready_spec, (match_nonempty l') by exact Hne'.
+  destruct (existsb isNone l') eqn:Ex; cbn [negb snd fst out_cnt].
+  - exists o1. split5; try exact Hok1.
+    + reflexivity.
+    + intros k N. cbn [cs_counts o1]. apply assoc_m_set_other. congruence.
+    + cbn [cs_counts o1]. apply assoc_m_set_same.
+    + intros l'' H; discriminate.
+  - destruct (full_vector l' Ex) as [xs Exs].
+    destruct (cnt_merge_full xs) as [r Er]; [intro E; subst xs; rewrite Exs in Hne'; now apply Hne'|].
+    unfold cs_msg. cbn [cs_counts o1]. rewrite assoc_m_set_same. cbn [vlist].
+    fold (cnt_merge l'). rewrite Exs, Er. cbn [option_map].
+    exists (cs_clear o1 id). split5.
+    + reflexivity.
+    + split; [exact Hn|]. cbn [cs_clear cs_counts]. apply slots_ok_del. apply Hok1.
+    + intros k N. cbn [cs_clear cs_counts o1]. rewrite assoc_m_del_other by congruence.
+      apply assoc_m_set_other. congruence.
+    + cbn [cs_clear cs_counts]. apply assoc_m_del_same.
+    + intros l'' H. inversion H; subst. now exists r.
+Qed.
+
+(* ------------------------------------------------------------------ *)
+(** * 5. The global invariant: the session does not panic *)
+
+Definition state_ok (n : nat) (s : state) : Prop :=
+  st_dead s = false /\ rs_ok n (st_rs s) /\ os_ok n (st_os s) /\ cs_ok n (st_cs s).
+
+Lemma init_ok n : state_ok n (init n).
+Proof.
+  unfold state_ok, init. cbn [st_dead st_rs st_os st_cs].
+  split; [reflexivity|]. split; [|split].
+  - split; [reflexivity|]. intro k. unfold rs_phase, rs_view. cbn. auto.
+  - split; [reflexivity|]. intros k l H; discriminate.
+  - split; [reflexivity|]. intros k l H; discriminate.
+Qed.
+
+Lemma state_ok_intro n s :
+  st_dead s = false -> rs_ok n (st_rs s) -> os_ok n (st_os s) -> cs_ok n (st_cs s) -> state_ok n s.
+Proof. unfold state_ok. auto. Qed.
+
+Lemma w_eose_wf n ph i : phase_wf n ph -> phase_wf n (fst (w_eose ph i)).
+Proof.
+  intro Hwf. destruct ph as [eo la se ms|]; cbn [w_eose fst]; [|exact I].
+  destruct (all_true eo); [exact I|].
+  destruct (upd_nth i true eo) as [eo'|] eqn:Eu; [|exact Hwf].
+  destruct (all_true eo'); [exact I|]. destruct Hwf as [Hl Hm]. split; [|exact Hm].
+  now rewrite (upd_nth_length _ _ _ _ Eu).
+Qed.
+
+Lemma w_event_wf n ph i e : phase_wf n ph -> phase_wf n (fst (w_event ph i e)).
+Proof.
+  intro Hwf. destruct ph as [eo la se ms|]; cbn [w_event fst]; [|exact I].
+  destruct Hwf as [Hl Hm].
+  destruct (all_true eo); [exact I|].
+  destruct (nth_error eo i) as [[]|]; try (split; assumption).
+  destruct (match la with Some l => ev_ts l <? ev_ts e | None => false end); [split; assumption|].
+  cbv zeta.
+  destruct (mem_str (ev_id e) _); [split; assumption|].
+  destruct (lms_done ms); [split; assumption|]. split; [assumption|].
+  unfold ms_wf in *. rewrite Forall_map. eapply Forall_impl; [|exact Hm].
+  intros a Ha. now rewrite lm_step_f.
+Qed.
+
+Lemma step_ok n s x : state_ok n s -> input_ok n x -> state_ok n (fst (merge_step s x)).
+Proof.
+  intros [Hd [Hr [Ho Hc]]] Hx. unfold merge_step. rewrite Hd.
+  destruct x as [sub fs|sub|id|sub|i m]; cbn [fst].
+  - apply state_ok_intro; cbn [with_rs st_dead st_rs st_os st_cs]; auto. now apply rs_set_sub_ok.
+  - apply state_ok_intro; cbn [with_rs st_dead st_rs st_os st_cs]; auto. now apply rs_clear_ok.
+  - apply state_ok_intro; cbn [with_os st_dead st_rs st_os st_cs]; auto. now apply os_try_set_ok.
+  - apply state_ok_intro; cbn [with_cs st_dead st_rs st_os st_cs]; auto. now apply cs_set_sub_ok.
+  - destruct m as [sub|sub e|m|c|t|sub p t]; cbn [input_ok] in Hx.
+    + destruct (send_eose_spec n s i sub Hr Hx) as [r' [E U]]. rewrite E. cbn [fst].
+      apply state_ok_intro; cbn [with_rs st_dead st_rs st_os st_cs]; auto.
+      eapply rs_upd_ok; [exact Hr | exact U |]. apply w_eose_wf. apply (proj2 Hr sub).
+    + destruct Hx as [Hi Hne].
+      destruct (send_event_spec n s i sub e Hr Hi Hne) as [r' [E U]]. rewrite E. cbn [fst].
+      apply state_ok_intro; cbn [with_rs st_dead st_rs st_os st_cs]; auto.
+      eapply rs_upd_ok; [exact Hr | exact U |]. apply w_event_wf. apply (proj2 Hr sub).
+    + destruct (send_ok_spec n s i m Ho Hx) as [o' [E [Hok' _]]]. rewrite E. cbn [fst].
+      apply state_ok_intro; cbn [with_os st_dead st_rs st_os st_cs]; auto.
+    + destruct (send_count_spec n s i c Hc Hx) as [c' [E [Hok' _]]]. rewrite E. cbn [fst].
+      apply state_ok_intro; cbn [with_cs st_dead st_rs st_os st_cs]; auto.
+    + apply state_ok_intro; auto.
+    + apply state_ok_intro; auto.
+Qed.
+
+Lemma exec_cons s x t :
+  exec s (x :: t) = (fst (exec (fst (merge_step s x)) t), snd (merge_step s x) :: snd (exec (fst (merge_step s x)) t)).
+Proof.
+  cbn [exec]. destruct (merge_step s x) as [s1 o]. cbn [fst snd]. destruct (exec s1 t); reflexivity.
+Qed.
+
+Lemma exec_app s t1 t2 :
+  exec s (t1 ++ t2) =
+  (fst (exec (fst (exec s t1)) t2), snd (exec s t1) ++ snd (exec (fst (exec s t1)) t2)).
+Proof.
+  revert s. induction t1 as [|x t1 IH]; intro s.
+  - cbn. destruct (exec s t2); reflexivity.
+  - rewrite <- app_comm_cons, !exec_cons, IH. cbn [fst snd]. reflexivity.
+Qed.
+
+Lemma exec_ok n t : forall s, state_ok n s -> trace_ok n t -> state_ok n (final s t).
+Proof.
+  induction t as [|x t IH]; intros s Hs Ht; [exact Hs|].
+  inversion Ht as [|? ? Hx Ht']; subst. unfold final. rewrite exec_cons. cbn [fst].
+  apply IH; [now apply step_ok | assumption].
+Qed.
+
+Lemma outs_length s t : length (outs s t) = length t.
+Proof.
+  revert s. induction t as [|x t IH]; intro s; [reflexivity|].
+  unfold outs. rewrite exec_cons. cbn [snd length]. f_equal. apply IH.
+Qed.
+
+(* ------------------------------------------------------------------ *)
+(** * 6. One subscription id: [merge_step] is simulated by the phase machine *)
+
+Definition wstep (sub : str) (ph : wphase) (x : input) : wphase * option smsg :=
+  match x with
+  | Child i (SEose s) =>
+      if str_eqb s sub
+      then (fst (w_eose ph i), if snd (w_eose ph i) then Some (SEose sub) else None)
+      else (ph, None)
+  | Child i (SEvent s e) =>
+      if str_eqb s sub
+      then (fst (w_event ph i e), if snd (w_event ph i e) then Some (SEvent sub e) else None)
+      else (ph, None)
+  | _ => (ph, None)
+  end.
+
+Fixpoint wrun (sub : str) (ph : wphase) (w : list input) : wphase * list (option smsg) :=
+  match w with
+  | [] => (ph, [])
+  | x :: w' =>
+      (fst (wrun sub (fst (wstep sub ph x)) w'),
+       snd (wstep sub ph x) :: snd (wrun sub (fst (wstep sub ph x)) w'))
+  end.
+
+(** the part of an output that concerns [sub]'s REQ *)
+Definition proj_sub (sub : str) (o : option smsg) : option smsg :=
+  match o with
+  | Some (SEose s) => if str_eqb s sub then o else None
+  | Some (SEvent s _) => if str_eqb s sub then o else None
+  | _ => None
+  end.
+
+Lemma rs_upd_other r r' s ph sub : rs_upd r r' s ph -> s <> sub -> rs_phase r' sub = rs_phase r sub.
+Proof. intros [_ [F _]] N. unfold rs_phase. rewrite F; [reflexivity | congruence]. Qed.
+
+Lemma rs_upd_same r r' sub ph : rs_upd r r' sub ph -> rs_phase r' sub = ph.
+Proof. intros [_ [_ [_ P]]]. exact P. Qed.
+
+Lemma step_sim n sub s x :
+  state_ok n s -> input_ok n x -> is_req_of sub x = false -> is_close_of sub x = false ->
+  rs_phase (st_rs (fst (merge_step s x))) sub = fst (wstep sub (rs_phase (st_rs s) sub) x) /\
+  proj_sub sub (snd (merge_step s x)) = snd (wstep sub (rs_phase (st_rs s) sub) x).
+Proof.
+  intros [Hd [Hr [Ho Hc]]] Hx Hnr Hnc. unfold merge_step. rewrite Hd.
+  destruct x as [s' fs|s'|id|s'|i m]; cbn [fst snd wstep proj_sub].
+  - cbn [is_req_of] in Hnr. apply str_eqb_neq in Hnr. split; [|reflexivity].
+    unfold rs_phase. cbn [with_rs st_rs]. rewrite rs_view_set_sub. now rewrite str_dec_neq.
+  - cbn [is_close_of] in Hnc. apply str_eqb_neq in Hnc. split; [|reflexivity].
+    unfold rs_phase. cbn [with_rs st_rs]. rewrite rs_view_clear. now rewrite str_dec_neq.
+  - split; reflexivity.
+  - split; reflexivity.
+  - destruct m as [s'|s' e|m|c|t|s' p t]; cbn [input_ok] in Hx; cbn [wstep].
+    + destruct (send_eose_spec n s i s' Hr Hx) as [r' [E U]]. rewrite E. cbn [fst snd with_rs st_rs].
+      destruct (str_eqb s' sub) eqn:Es.
+      * apply str_eqb_eq in Es. subst s'. cbn [fst snd]. split; [now apply rs_upd_same in U|].
+        destruct (snd (w_eose _ i)); cbn [proj_sub]; [now rewrite str_eqb_refl | reflexivity].
+      * apply str_eqb_neq in Es. cbn [fst snd]. split; [eapply rs_upd_other; eauto|].
+        destruct (snd (w_eose _ i)); cbn [proj_sub]; [|reflexivity].
+        apply str_eqb_neq in Es. now rewrite Es.
+    + destruct Hx as [Hi Hne].
+      destruct (send_event_spec n s i s' e Hr Hi Hne) as [r' [E U]]. rewrite E. cbn [fst snd with_rs st_rs].
+      destruct (str_eqb s' sub) eqn:Es.
+      * apply str_eqb_eq in Es. subst s'. cbn [fst snd]. split; [now apply rs_upd_same in U|].
+        destruct (snd (w_event _ i e)); cbn [proj_sub]; [now rewrite str_eqb_refl | reflexivity].
+      * apply str_eqb_neq in Es. cbn [fst snd]. split; [eapply rs_upd_other; eauto|].
+        destruct (snd (w_event _ i e)); cbn [proj_sub]; [|reflexivity].
+        apply str_eqb_neq in Es. now rewrite Es.
+    + destruct (send_ok_spec n s i m Ho Hx) as [o' [E _]]. rewrite E. cbn [fst snd with_os st_rs].
+      split; [reflexivity|]. destruct (out_ok _) as [[]|] eqn:Eo; try reflexivity;
+        unfold out_ok in Eo; destruct (snd (w_put _ i m)); try discriminate;
+        destruct (ok_merge _); discriminate.
+    + destruct (send_count_spec n s i c Hc Hx) as [c' [E _]]. rewrite E. cbn [fst snd with_cs st_rs].
+      split; [reflexivity|]. destruct (out_cnt _) as [[]|] eqn:Eo; try reflexivity;
+        unfold out_cnt in Eo; destruct (snd (w_put _ i c)); try discriminate;
+        destruct (cnt_merge _); discriminate.
+    + split; reflexivity.
+    + split; reflexivity.
+Qed.
+
+Lemma no_reset_cons sub x w : no_reset sub (x :: w) ->
+  is_req_of sub x = false /\ is_close_of sub x = false /\ no_reset sub w.
+Proof.
+  intro H. destruct (H x (or_introl eq_refl)) as [H1 H2]. repeat split; auto.
+  - apply H. now right.
+  - apply H. now right.
+Qed.
+
+Lemma run_sim n sub w : forall s,
+  state_ok n s -> trace_ok n w -> no_reset sub w ->
+  rs_phase (st_rs (final s w)) sub = fst (wrun sub (rs_phase (st_rs s) sub) w) /\
+  List.map (proj_sub sub) (outs s w) = snd (wrun sub (rs_phase (st_rs s) sub) w).
+Proof.
+  induction w as [|x w IH]; intros s Hs Ht Hn; [split; reflexivity|].
+  inversion Ht as [|? ? Hx Ht']; subst.
+  destruct (no_reset_cons _ _ _ Hn) as [H1 [H2 Hn']].
+  destruct (step_sim n sub s x Hs Hx H1 H2) as [P O].
+  destruct (IH (fst (merge_step s x)) (step_ok n s x Hs Hx) Ht' Hn') as [P' O'].
+  unfold final, outs in *. rewrite exec_cons. cbn [fst snd wrun List.map].
+  rewrite P in P', O'. rewrite O. split; [exact P' | now rewrite O'].
+Qed.
+
+Lemma wrun_app sub ph w1 w2 :
+  wrun sub ph (w1 ++ w2) =
+  (fst (wrun sub (fst (wrun sub ph w1)) w2), snd (wrun sub ph w1) ++ snd (wrun sub (fst (wrun sub ph w1)) w2)).
+Proof.
+  revert ph. induction w1 as [|x w1 IH]; intro ph.
+  - cbn. destruct (wrun sub ph w2); reflexivity.
+  - rewrite <- app_comm_cons. cbn [wrun]. rewrite IH. cbn [fst snd]. reflexivity.
+Qed.
+
+Lemma wrun_snoc sub ph w1 x :
+  wrun sub ph (w1 ++ [x]) =
+  (fst (wstep sub (fst (wrun sub ph w1)) x), snd (wrun sub ph w1) ++ [snd (wstep sub (fst (wrun sub ph w1)) x)]).
+Proof. rewrite wrun_app. cbn [wrun fst snd]. reflexivity. Qed.
+
+(* ------------------------------------------------------------------ *)
+(** * 7. C08: what happens inside one REQ window *)
+
+(** the phase right after [CReq sub fs] *)
+Definition ph0 (n : nat) (fs : list rfilter) : wphase := WOpen (repeat false n) None [] (lms_new fs).
+
+Lemma phase_after_req n s sub fs :
+  state_ok n s -> rs_phase (st_rs (fst (merge_step s (CReq sub fs)))) sub = ph0 n fs.
+Proof.
+  intros [Hd [[Hn _] _]]. unfold merge_step. rewrite Hd. cbn [fst with_rs st_rs].
+  unfold rs_phase. rewrite rs_view_set_sub, str_dec_refl, Hn. reflexivity.
+Qed.
+
+Definition eo_of (n : nat) (sub : str) (w : list input) : list bool := List.map (eosed sub w) (seq 0 n).
+
+Lemma eo_of_nil n sub : eo_of n sub [] = repeat false n.
+Proof.
+  unfold eo_of, eosed. cbn [existsb]. generalize 0%nat.
+  induction n as [|n IH]; intro a; cbn; [reflexivity | now rewrite IH].
+Qed.
+
+Lemma all_true_eo_of n sub w : all_true (eo_of n sub w) = all_eosed n sub w.
+Proof. unfold all_true, eo_of, all_eosed. apply forallb_map_seq. Qed.
+
+Lemma eosed_snoc sub w x j : eosed sub (w ++ [x]) j = eosed sub w j || is_eose_of sub j x.
+Proof. unfold eosed. rewrite existsb_app. cbn [existsb]. now rewrite orb_false_r. Qed.
+
+Definition is_eose_in (sub : str) (x : input) : bool :=
+  match x with Child _ (SEose s) => str_eqb s sub | _ => false end.
+
+Lemma not_eose_in sub x j : is_eose_in sub x = false -> is_eose_of sub j x = false.
+Proof.
+  destruct x as [| | | |i [s| | | | |]]; cbn; try reflexivity. intros ->. apply andb_false_r.
+Qed.
+
+Lemma eo_of_snoc_other n sub w x : is_eose_in sub x = false -> eo_of n sub (w ++ [x]) = eo_of n sub w.
+Proof.
+  intro H. unfold eo_of. apply map_ext. intro j. rewrite eosed_snoc, (not_eose_in _ _ _ H). apply orb_false_r.
+Qed.
+
+Lemma all_eosed_snoc_other n sub w x :
+  is_eose_in sub x = false -> all_eosed n sub (w ++ [x]) = all_eosed n sub w.
+Proof. intro H. now rewrite <- !all_true_eo_of, eo_of_snoc_other. Qed.
+
+Lemma eo_of_snoc_eose n sub w i :
+  (i < n)%nat -> upd_nth i true (eo_of n sub w) = Some (eo_of n sub (w ++ [Child i (SEose sub)])).
+Proof.
+  intro Hi. unfold eo_of. rewrite upd_nth_map_seq by assumption. f_equal.
+  apply map_ext. intro j. rewrite eosed_snoc. cbn [is_eose_of]. rewrite str_eqb_refl, andb_true_r.
+  cbn [Nat.add]. rewrite (Nat.eqb_sym i j). destruct (Nat.eqb j i); [now rewrite orb_true_r | now rewrite orb_false_r].
+Qed.
+
+Lemma all_eosed_mono n sub w x : all_eosed n sub w = true -> all_eosed n sub (w ++ [x]) = true.
+Proof.
+  unfold all_eosed. rewrite !forallb_forall. intros H j Hj. rewrite eosed_snoc, (H j Hj). reflexivity.
+Qed.
+
+Lemma all_eosed_nil n sub : (1 <= n)%nat -> all_eosed n sub [] = false.
+Proof. intro H. destruct n; [lia|]. reflexivity. Qed.
+
+Definition ev_key (e : event) : Z * str := (ev_ts e, ev_id e).
+
+(** what holds of an open window: [fwd] are the events forwarded so far *)
+Definition pre_inv (fs : list rfilter) (la : option event) (se : list str) (ms : list lmatcher)
+  (fwd : list event) : Prop :=
+  List.map lm_f ms = fs /\
+  Forall (fun e => matches_specb e fs = true) fwd /\
+  NoDup (List.map ev_key fwd) /\
+  ts_noninc fwd /\
+  match la with
+  | None => fwd = [] /\ se = []
+  | Some l => (forall e, In e fwd -> ev_ts l <= ev_ts e) /\
+              (forall e, In e fwd -> ev_ts e = ev_ts l -> In (ev_id e) se)
+  end /\
+  (forall m, ms = [m] ->
+     lm_cnt m = Z.of_nat (length fwd) /\
+     forall l, f_limit (lm_f m) = Some l -> Z.of_nat (length fwd) <= Z.max 0 l).
+
+Lemma ts_noninc_snoc l e : ts_noninc l -> (forall x, In x l -> ev_ts e <= ev_ts x) -> ts_noninc (l ++ [e]).
+Proof.
+  induction l as [|a l IH]; cbn; intros H Hle.
+  - split; [intros e' []|exact I].
+  - destruct H as [H1 H2]. split.
+    + intros e' Hin. apply in_app_or in Hin as [Hin|[<-|[]]]; [now apply H1 | apply Hle; now left].
+    + apply IH; [assumption | intros x Hx; apply Hle; now right].
+Qed.
+
+Lemma NoDup_snoc {A} (l : list A) a : NoDup l -> ~ In a l -> NoDup (l ++ [a]).
+Proof.
+  intros H Hn. induction l as [|x l IH]; cbn.
+  - constructor; [intros [] | constructor].
+  - inversion H; subst. constructor.
+    + intro Hin. apply in_app_or in Hin as [Hin|[<-|[]]]; [contradiction | apply Hn; now left].
+    + apply IH; [assumption | intro; apply Hn; now right].
+Qed.
+
+Lemma map_lm_f_step e ms : List.map lm_f (List.map (lm_step e) ms) = List.map lm_f ms.
+Proof. rewrite map_map. apply map_ext. intro m. apply lm_step_f. Qed.
+
+Lemma pre_inv_init fs : pre_inv fs None [] (lms_new fs) [].
+Proof.
+  unfold pre_inv. split; [apply map_lm_f_new|]. split; [constructor|]. split; [constructor|].
+  split; [exact I|]. split; [auto|].
+  intros m Hm. cbn. split.
+  - unfold lms_new in Hm. destruct fs as [|f [|f' fs']]; try discriminate. inversion Hm. reflexivity.
+  - intros l _. lia.
+Qed.
+
+Lemma pre_inv_same fs la se ms fwd e se' :
+  pre_inv fs la se ms fwd ->
+  (forall x, In x fwd -> ev_ts e <= ev_ts x) ->
+  (forall x, In x fwd -> ev_ts x = ev_ts e -> In (ev_id x) se') ->
+  pre_inv fs (Some e) se' ms fwd.
+Proof.
+  intros [Hf [Hm [Hnd [Hts [Hla Hlim]]]]] H1 H2.
+  split; [assumption|]. split; [assumption|]. split; [assumption|]. split; [assumption|].
+  split; [split; assumption | assumption].
+Qed.
+
+(** the heart of C08: one EVENT of a child that has not sent EOSE, in an
+    open window *)
+Lemma w_event_pre fs eo la se ms fwd i e :
+  all_true eo = false -> nth_error eo i <> None ->
+  pre_inv fs la se ms fwd ->
+  exists la' se' ms',
+    fst (w_event (WOpen eo la se ms) i e) = WOpen eo la' se' ms' /\
+    pre_inv fs la' se' ms' (if snd (w_event (WOpen eo la se ms) i e) then fwd ++ [e] else fwd).
+Proof.
+  intros Hall Hn Hinv.
+  destruct (nth_error eo i) as [[]|] eqn:En; [| |congruence].
+  { unfold w_event. rewrite Hall, En. cbn [fst snd]. now exists la, se, ms. }
+  rewrite (w_event_open eo la se ms i e Hall En).
+  destruct (older_first la e) eqn:Eold; [cbn [fst snd]; now exists la, se, ms|].
+  pose proof Hinv as Hinv0.
+  destruct Hinv as [Hf [Hm [Hnd [Hts [Hla Hlim]]]]].
+  set (se1 := if ts_decreased la e then [] else se).
+  (* facts about the events forwarded so far, relative to e *)
+  assert (Hge : forall x, In x fwd -> ev_ts e <= ev_ts x).
+  { destruct la as [l|]; [|destruct Hla as [-> _]; intros x []].
+    cbn [older_first] in Eold. apply Z.ltb_ge in Eold. destruct Hla as [H1 _].
+    intros x Hx. specialize (H1 x Hx). lia. }
+  assert (Hse1 : forall x, In x fwd -> ev_ts x = ev_ts e -> In (ev_id x) se1).
+  { destruct la as [l|]; [|destruct Hla as [-> _]; intros x []].
+    destruct Hla as [H1 H2]. intros x Hx Ex. subst se1. cbn [ts_decreased].
+    destruct (ev_ts e <? ev_ts l) eqn:Ed.
+    - apply Z.ltb_lt in Ed. specialize (H1 x Hx). lia.
+    - apply Z.ltb_ge in Ed. cbn [older_first] in Eold. apply Z.ltb_ge in Eold.
+      apply H2; [assumption | lia]. }
+  unfold w_dedup_limit. fold se1.
+  destruct (mem_str (ev_id e) se1) eqn:Emem.
+  { cbn [fst snd]. exists (Some e), se1, ms. split; [reflexivity|].
+    eapply pre_inv_same; eauto. }
+  destruct (lms_done ms) eqn:Edone.
+  { cbn [fst snd]. exists (Some e), (ev_id e :: se1), ms. split; [reflexivity|].
+    eapply pre_inv_same; eauto. intros x Hx Ex. right. now apply Hse1. }
+  cbn [fst snd]. exists (Some e), (ev_id e :: se1), (List.map (lm_step e) ms). split; [reflexivity|].
+  rewrite Hf.
+  destruct (matches_specb e fs) eqn:Eb.
+  - (* forwarded *)
+    split; [rewrite map_lm_f_step; exact Hf|].
+    split; [apply Forall_app; split; [assumption | constructor; [assumption | constructor]]|].
+    split.
+    { rewrite map_app. cbn [List.map]. apply NoDup_snoc; [assumption|].
+      intro Hin. apply in_map_iff in Hin as [x [Ek Hx]]. unfold ev_key in Ek. inversion Ek as [[Et Ei]].
+      assert (In (ev_id x) se1) by now apply Hse1.
+      rewrite Ei in H. apply mem_str_In in H. congruence. }
+    split; [now apply ts_noninc_snoc|].
+    split.
+    { split.
+      - intros x Hx. apply in_app_or in Hx as [Hx|[<-|[]]]; [now apply Hge | lia].
+      - intros x Hx Ex. apply in_app_or in Hx as [Hx|[<-|[]]]; [right; now apply Hse1 | now left]. }
+    intros m' Hm'. destruct ms as [|m [|m2 ms2]]; try discriminate. cbn [List.map] in Hm'. inversion Hm'; subst m'.
+    destruct (Hlim m eq_refl) as [Hc Hl].
+    cbn [List.map] in Hf. subst fs. unfold matches_specb in Eb. cbn [existsb] in Eb. rewrite orb_false_r in Eb.
+    unfold lm_step. rewrite Eb. cbn [lm_cnt lm_f]. rewrite app_length. cbn [length].
+    split; [lia|]. intros l El.
+    unfold lms_done in Edone. cbn [forallb] in Edone. rewrite andb_true_r in Edone.
+    unfold lm_done in Edone. rewrite g_done_spec, El in Edone. cbn [isSome andb] in Edone.
+    apply Z.leb_gt in Edone. lia.
+  - (* matched nothing: dropped, no counter moved for a single filter *)
+    split; [rewrite map_lm_f_step; exact Hf|].
+    split; [assumption|]. split; [assumption|]. split; [assumption|].
+    split.
+    { split; [intros x Hx; now apply Hge | intros x Hx Ex; right; now apply Hse1]. }
+    intros m' Hm'. destruct ms as [|m [|m2 ms2]]; try discriminate. cbn [List.map] in Hm'. inversion Hm'; subst m'.
+    destruct (Hlim m eq_refl) as [Hc Hl].
+    cbn [List.map] in Hf. subst fs. unfold matches_specb in Eb. cbn [existsb] in Eb. rewrite orb_false_r in Eb.
+    unfold lm_step. rewrite Eb. split; [exact Hc | exact Hl].
+Qed.
+
+Lemma forwarded_app sub a b : forwarded sub (a ++ b) = forwarded sub a ++ forwarded sub b.
+Proof.
+  induction a as [|[[s|s e|m|c|t|s p t]|] a IH]; cbn [app forwarded]; try assumption; [reflexivity|].
+  destruct (str_eqb s sub); [cbn; now rewrite IH | assumption].
+Qed.
+
+Lemma wstep_closed sub x : fst (wstep sub WClosed x) = WClosed.
+Proof.
+  destruct x as [| | | |i [s|s e| | | |]]; cbn; try reflexivity; destruct (str_eqb s sub); reflexivity.
+Qed.
+
+Lemma eo_of_length n sub w : length (eo_of n sub w) = n.
+Proof. unfold eo_of. now rewrite map_length, seq_length. Qed.
+
+(** the state of a window after the inputs [w1] *)
+Definition window_state (n : nat) (sub : str) (fs : list rfilter) (w1 : list input) : Prop :=
+  if all_eosed n sub w1 then fst (wrun sub (ph0 n fs) w1) = WClosed
+  else exists la se ms,
+      fst (wrun sub (ph0 n fs) w1) = WOpen (eo_of n sub w1) la se ms /\
+      pre_inv fs la se ms (forwarded sub (snd (wrun sub (ph0 n fs) w1))).
+
+Lemma trace_ok_snoc n w x : trace_ok n (w ++ [x]) -> trace_ok n w /\ input_ok n x.
+Proof.
+  intro H. apply Forall_app in H as [H1 H2]. split; [assumption | now inversion H2].
+Qed.
+
+Lemma window_inv n sub fs w1 : (1 <= n)%nat -> trace_ok n w1 -> window_state n sub fs w1.
+Proof.
+  intro Hn. induction w1 as [|x w1 IH] using rev_ind; intro Ht.
+  - unfold window_state. rewrite (all_eosed_nil n sub Hn). cbn [wrun fst snd forwarded].
+    exists None, [], (lms_new fs). split; [unfold ph0; now rewrite eo_of_nil | apply pre_inv_init].
+  - destruct (trace_ok_snoc _ _ _ Ht) as [Ht1 Hx]. specialize (IH Ht1).
+    unfold window_state in *. rewrite wrun_snoc. cbn [fst snd].
+    destruct (all_eosed n sub w1) eqn:Ea.
+    { rewrite (all_eosed_mono n sub w1 x Ea), IH. apply wstep_closed. }
+    destruct IH as [la [se [ms [Eph Hinv]]]]. rewrite Eph. rewrite forwarded_app.
+    assert (Hat : all_true (eo_of n sub w1) = false) by now rewrite all_true_eo_of.
+    (* inputs that are not EOSE/EVENT of this subscription leave everything alone *)
+    assert (Hother : is_eose_in sub x = false ->
+                     wstep sub (WOpen (eo_of n sub w1) la se ms) x = (WOpen (eo_of n sub w1) la se ms, None) ->
+                     if all_eosed n sub (w1 ++ [x])
+                     then fst (wstep sub (WOpen (eo_of n sub w1) la se ms) x) = WClosed
+                     else exists la0 se0 ms0,
+                         fst (wstep sub (WOpen (eo_of n sub w1) la se ms) x) = WOpen (eo_of n sub (w1 ++ [x])) la0 se0 ms0 /\
+                         pre_inv fs la0 se0 ms0
+                           (forwarded sub (snd (wrun sub (ph0 n fs) w1)) ++
+                            forwarded sub [snd (wstep sub (WOpen (eo_of n sub w1) la se ms) x)])).
+    { intros Hne Ew. rewrite (all_eosed_snoc_other n sub w1 x Hne), Ea, Ew, (eo_of_snoc_other n sub w1 x Hne).
+      cbn [fst snd forwarded]. rewrite app_nil_r. now exists la, se, ms. }
+    destruct x as [s fs'|s|id|s|i [s|s e|m|c|t|s p t]]; try (apply Hother; reflexivity).
+    + (* EOSE *)
+      destruct (str_eqb s sub) eqn:Es.
+      2:{ apply Hother; cbn; rewrite ?Es; reflexivity. }
+      apply str_eqb_eq in Es. subst s. cbn [input_ok] in Hx.
+      cbn [wstep]. rewrite str_eqb_refl. cbn [w_eose]. rewrite Hat.
+      rewrite (eo_of_snoc_eose n sub w1 i Hx), all_true_eo_of.
+      destruct (all_eosed n sub (w1 ++ [Child i (SEose sub)])) eqn:Ea'; cbn [fst snd]; [reflexivity|].
+      cbn [forwarded]. rewrite app_nil_r. now exists la, se, ms.
+    + (* EVENT *)
+      destruct (str_eqb s sub) eqn:Es.
+      2:{ apply Hother; cbn; rewrite ?Es; reflexivity. }
+      apply str_eqb_eq in Es. subst s. cbn [input_ok] in Hx. destruct Hx as [Hi Hne].
+      rewrite (all_eosed_snoc_other n sub w1 (Child i (SEvent sub e)) eq_refl), Ea,
+        (eo_of_snoc_other n sub w1 (Child i (SEvent sub e)) eq_refl).
+      cbn [wstep]. rewrite str_eqb_refl. cbn [fst snd].
+      assert (Hnth : nth_error (eo_of n sub w1) i <> None).
+      { intro E. apply nth_error_None in E. rewrite eo_of_length in E. lia. }
+      destruct (w_event_pre fs _ la se ms _ i e Hat Hnth Hinv) as [la' [se' [ms' [E' Hinv']]]].
+      exists la', se', ms'. split; [exact E'|].
+      destruct (snd (w_event (WOpen (eo_of n sub w1) la se ms) i e)); cbn [forwarded].
+      * now rewrite str_eqb_refl.
+      * now rewrite app_nil_r.
+Qed.
+
+(** the merged EOSE appears exactly at the step that completes the set *)
+Lemma eose_step n sub fs w1 x :
+  (1 <= n)%nat -> trace_ok n (w1 ++ [x]) ->
+  is_eose_out sub (snd (wstep sub (fst (wrun sub (ph0 n fs) w1)) x)) =
+  negb (all_eosed n sub w1) && all_eosed n sub (w1 ++ [x]).
+Proof.
+  intros Hn Ht. destruct (trace_ok_snoc _ _ _ Ht) as [Ht1 Hx].
+  pose proof (window_inv n sub fs w1 Hn Ht1) as H1. unfold window_state in H1.
+  destruct (all_eosed n sub w1) eqn:Ea; cbn [negb andb].
+  - rewrite H1. destruct x as [| | | |i [s|s e| | | |]]; cbn; try reflexivity; destruct (str_eqb s sub); reflexivity.
+  - destruct H1 as [la [se [ms [Eph _]]]]. rewrite Eph.
+    assert (Hat : all_true (eo_of n sub w1) = false) by now rewrite all_true_eo_of.
+    assert (Hother : is_eose_in sub x = false ->
+                     is_eose_out sub (snd (wstep sub (WOpen (eo_of n sub w1) la se ms) x)) = false ->
+                     is_eose_out sub (snd (wstep sub (WOpen (eo_of n sub w1) la se ms) x)) = all_eosed n sub (w1 ++ [x])).
+    { intros Hne ->. now rewrite (all_eosed_snoc_other n sub w1 x Hne), Ea. }
+    destruct x as [s fs'|s|id|s|i [s|s e|m|c|t|s p t]]; try (apply Hother; reflexivity).
+    + destruct (str_eqb s sub) eqn:Es.
+      2:{ apply Hother; cbn; rewrite ?Es; reflexivity. }
+      apply str_eqb_eq in Es. subst s. cbn [input_ok] in Hx.
+      cbn [wstep]. rewrite str_eqb_refl. cbn [w_eose]. rewrite Hat.
+      rewrite (eo_of_snoc_eose n sub w1 i Hx), all_true_eo_of.
+      destruct (all_eosed n sub (w1 ++ [Child i (SEose sub)])); cbn; [now rewrite str_eqb_refl | reflexivity].
+    + destruct (str_eqb s sub) eqn:Es.
+      2:{ apply Hother; cbn; rewrite ?Es; reflexivity. }
+      apply Hother; [reflexivity|]. cbn [wstep]. rewrite Es. cbn [snd].
+      destruct (snd (w_event _ i e)); reflexivity.
 Qed.
